@@ -121,6 +121,7 @@ class Ctx:
         self.loop_summaries = []
         self._solver = None
         self.param_arrays = {}
+        self.generic = None
 
     # -- solver helpers
     def hyps(self):
@@ -161,6 +162,14 @@ class Ctx:
         d = self.decide(cond)
         if d is not None:
             return d
+        if getattr(self, "generic", None) is not None:
+            from .npmodel import free_consts
+            fv = free_consts(cond)
+            sc = self.generic
+            while sc is not None:
+                if str(sc.space.k) in fv:
+                    raise Unsupported("path split on a condition that depends on the loop variable inside a loop summary (%s)" % what)
+                sc = sc.parent
         k = len(self.taken)
         if k < len(self.decisions):
             v = self.decisions[k]
@@ -185,6 +194,13 @@ class Ctx:
         if f is True:
             return
         self.defs.append((f, msg, list(self.pc), self.lineno, self.func))
+
+    def lemma(self, name, f):
+        """an auxiliary fact: proved as its own obligation from the hypotheses at this point, then available as a hypothesis"""
+        if not hasattr(self, "lemmas"):
+            self.lemmas = []
+        self.lemmas.append((name, f, list(self.assumptions), list(self.pc)))
+        self.assumptions.append(f)
 
     def on_array_write(self, root, what):
         if root.prov:
@@ -411,6 +427,33 @@ class Interp:
         t = s.target
         opname = type(s.op).__name__
         rhs = self.eval(s.value, fr)
+        scope = getattr(self.ctx, "generic", None)
+        if scope is not None and isinstance(t, ast.Name):
+            from . import loopsum
+            sc = scope
+            while sc is not None:
+                if t.id in getattr(sc, "acc_names", ()) and opname in ("Add", "Sub"):
+                    sc.scalar_acc[t.id].append((rhs, scope.guard(), -1 if opname == "Sub" else 1))
+                    return
+                if t.id in getattr(sc, "counter_incr", {}) and opname == "Add" and is_conc(rhs):
+                    sc.counter_incr[t.id].append((rhs, scope.guard()))
+                    fr.env[t.id] = self.binop("Add", self.lookup(t.id, fr), rhs)
+                    return
+                sc = sc.parent
+            cur0 = fr.env.get(t.id)
+            if isinstance(cur0, Arr) and scope.is_outer(cur0.rootarr()):
+                if opname in ("Add", "Sub"):
+                    loopsum.accumulate(self, cur0, rhs, -1 if opname == "Sub" else 1, "in-place %s on %s" % (opname, t.id))
+                    return
+                raise Unsupported("in-place %s on an array inside a loop summary" % opname)
+        if scope is not None and isinstance(t, ast.Subscript) and opname in ("Add", "Sub"):
+            from . import loopsum, npmodel as _np
+            base0 = self.eval(t.value, fr)
+            if isinstance(base0, Arr) and scope.is_outer(base0.rootarr()):
+                key0 = self.eval_index(t.slice, fr)
+                tgt = _np.getitem_view(self, base0, key0 if isinstance(key0, tuple) else (key0,))
+                loopsum.accumulate(self, tgt, rhs, -1 if opname == "Sub" else 1, "item %s" % opname)
+                return
         if isinstance(t, ast.Name):
             cur = self.lookup(t.id, fr)
             if isinstance(cur, Arr):
@@ -449,6 +492,9 @@ class Interp:
             raise Unsupported("augmented assignment target")
 
     def st_If(self, s, fr):
+        if getattr(self.ctx, "generic", None) is not None:
+            from . import loopsum
+            return loopsum.generic_if(self, s, fr)
         c = self.truth(self.eval(s.test, fr))
         if self.ctx.branch(c):
             self.exec_block(s.body, fr)
@@ -522,7 +568,10 @@ class Interp:
 
     def lookup(self, name, fr):
         if name in fr.env:
-            return fr.env[name]
+            v = fr.env[name]
+            if type(v).__name__ == "Poison":
+                raise Unsupported(v.why)
+            return v
         r = frontend.resolve_name(fr.mod, name)
         if r is not None:
             return self.from_resolution(r, fr)
@@ -688,7 +737,7 @@ class Interp:
         sym = {"Lt": "<", "LtE": "<=", "Gt": ">", "GtE": ">=", "Eq": "==", "NotEq": "!="}
         if op in ("Is", "IsNot"):
             same = (a is b) or (a is None and b is None) or (isinstance(a, bool) and isinstance(b, bool) and a == b)
-            if is_z3(a) or is_z3(b):
+            if (is_z3(a) and is_z3(b)):
                 raise Unsupported("identity comparison of symbolic values")
             return same if op == "Is" else not same
         if op in ("In", "NotIn"):
